@@ -104,3 +104,353 @@ Proof.
   intros. unfold fx_gtb, z2f. apply eq_true_iff_eq. rewrite negb_true_iff, <- not_true_iff_false, Qle_bool_iff.
   unfold Qle, inject_Z. cbn [Qnum Qden]. lia.
 Qed.
+
+(* ======================================================================================================
+   Part 2: the operations of optimal_completion's post-processing on tabulated arguments
+   ====================================================================================================== *)
+Lemma flat_map_map : forall {A B C} (g : B -> list C) (h : A -> B) l, flat_map g (map h l) = flat_map (fun a => g (h a)) l.
+Proof. intros. induction l as [|a l IH]; [reflexivity|]. cbn [map flat_map]. now rewrite IH. Qed.
+
+Lemma flat_map_seq_mul : forall {X} (G : nat -> list X) n m,
+  flat_map G (seq 0 (n * m)) = flat_map (fun i => flat_map (fun j => G (i * m + j)) (seq 0 m)) (seq 0 n).
+Proof.
+  intros X G n m. induction n as [|n IH]; [reflexivity|].
+  rewrite seq_S, flat_map_app. cbn [flat_map Nat.add]. rewrite app_nil_r, <- IH.
+  replace (S n * m) with (n * m + m) by lia. rewrite seq_app, flat_map_app. f_equal.
+  cbn [Nat.add]. now rewrite (seq_plus m (n * m)), flat_map_map.
+Qed.
+
+(* a matrix whose rows are numbered by pairs (a, b) is the 3-D table *)
+Lemma tab2_rows3 : forall {X} A B C (F : nat -> nat -> X),
+  tab2 (A * B) C F = tab3 A B C (fun a b c => F (a * B + b) c).
+Proof. intros. unfold tab2, tab3. apply flat_map_seq_mul. Qed.
+
+Lemma tab4_ext : forall {X} O N I J (f g : nat -> nat -> nat -> nat -> X),
+  (forall o t i j, o < O -> t < N -> i < I -> j < J -> f o t i j = g o t i j) -> tab4 O N I J f = tab4 O N I J g.
+Proof.
+  intros. unfold tab4. apply flat_map_ext_seq. intros o Ho. apply flat_map_ext_seq. intros t Ht.
+  apply flat_map_ext_seq. intros i Hi. apply map_ext_seq. intros j Hj. now apply H.
+Qed.
+
+Lemma repeat_tab3 : forall {X} (v : X) A B C, repeat v (A * (B * C)) = tab3 A B C (fun _ _ _ => v).
+Proof.
+  intros X v A B C. rewrite repeat_as_map. unfold tab3. rewrite (seq_mul (fun _ => v) A (B * C)).
+  apply flat_map_ext_seq. intros a Ha. rewrite (seq_mul (fun _ => v) B C). reflexivity.
+Qed.
+
+Lemma full_3 : forall {X} (v : X) A B C, full [A; B; C] v = mkTn [A; B; C] (tab3 A B C (fun _ _ _ => v)).
+Proof. intros. unfold full. cbn [numel]. now rewrite repeat_tab3. Qed.
+
+(* ---- transpose of a 3-D table ---------------------------------------------------------------------------------- *)
+Lemma transpose3_12 : forall {X} (d : X) A B C f,
+  transpose3 d (mkTn [A; B; C] (tab3 A B C f)) 1 2 = Some (mkTn [A; C; B] (tab3 A C B (fun i k j => f i j k))).
+Proof.
+  intros. unfold transpose3. cbn [shp dat]. change (wrap_dim 3 1) with (Some 1). change (wrap_dim 3 2) with (Some 2).
+  cbn [swap3 Nat.eqb]. do 2 f_equal. apply tab3_ext. intros i k j Hi Hk Hj. now apply nth_tab3.
+Qed.
+
+Lemma transpose3_01 : forall {X} (d : X) A B C f,
+  transpose3 d (mkTn [A; B; C] (tab3 A B C f)) 0 1 = Some (mkTn [B; A; C] (tab3 B A C (fun j i k => f i j k))).
+Proof.
+  intros. unfold transpose3. cbn [shp dat]. change (wrap_dim 3 0) with (Some 0). change (wrap_dim 3 1) with (Some 1).
+  cbn [swap3 Nat.eqb]. do 2 f_equal. apply tab3_ext. intros j i k Hj Hi Hk. now apply nth_tab3.
+Qed.
+
+Lemma unsqueeze_3_2 : forall {X} A B C (d : list X), unsqueeze (mkTn [A; B; C] d) 2 = Some (mkTn [A; B; 1; C] d).
+Proof. reflexivity. Qed.
+Lemma unsqueeze_2_1 : forall {X} A B (d : list X), unsqueeze (mkTn [A; B] d) 1 = Some (mkTn [A; 1; B] d).
+Proof. reflexivity. Qed.
+Lemma unsqueeze_2_2 : forall {X} A B (d : list X), unsqueeze (mkTn [A; B] d) 2 = Some (mkTn [A; B; 1] d).
+Proof. reflexivity. Qed.
+
+(* ---- broadcasting ------------------------------------------------------------------------------------------------ *)
+(* (A x 1 x B) against (A x B x 1), both holding the matrix g: (n, a, b) -> f (g n b) (g n a) *)
+Lemma broadcast_row_col3 : forall {X W} (f : X -> X -> W) dx A B g,
+  broadcast f dx dx (mkTn [A; 1; B] (tab2 A B g)) (mkTn [A; B; 1] (tab2 A B g)) =
+  Some (mkTn [A; B; B] (tab3 A B B (fun n a b => f (g n b) (g n a)))).
+Proof.
+  intros. unfold broadcast. cbn [rank shp dat length Nat.max pad_shape Nat.sub repeat app bc_shape].
+  rewrite bdim_refl, bdim_1_l, bdim_1_r.
+  rewrite (bc_data_3 f dx dx A 1 B A B 1 A B B) by (apply bdim_1_r || apply bdim_1_l || apply bdim_refl).
+  do 2 f_equal. apply tab3_ext. intros n a b Hn Ha Hb. change (bidx 1 a) with 0. change (bidx 1 b) with 0.
+  rewrite (bidx_same A n), (bidx_same B a), (bidx_same B b) by assumption. cbn [Nat.mul Nat.add].
+  replace ((n * 1 + 0) * B + b) with (n * B + b) by lia. replace ((n * B + a) * 1 + 0) with (n * B + a) by lia.
+  now rewrite !nth_tab2.
+Qed.
+
+Lemma bc_data_4 : forall {X Y W} (f : X -> Y -> W) dx dy a1 a2 a3 a4 b1 b2 b3 b4 n1 n2 n3 n4 la lb,
+  bdim a1 b1 = Some n1 -> bdim a2 b2 = Some n2 -> bdim a3 b3 = Some n3 -> bdim a4 b4 = Some n4 ->
+  bc_data f dx dy [a1; a2; a3; a4] [b1; b2; b3; b4] la lb 0 0 =
+  tab4 n1 n2 n3 n4 (fun i j k l => f (nth (((bidx a1 i * a2 + bidx a2 j) * a3 + bidx a3 k) * a4 + bidx a4 l) la dx)
+                                     (nth (((bidx b1 i * b2 + bidx b2 j) * b3 + bidx b3 k) * b4 + bidx b4 l) lb dy)).
+Proof.
+  intros X Y W f dx dy a1 a2 a3 a4 b1 b2 b3 b4 n1 n2 n3 n4 la lb H1 H2 H3 H4. cbn [bc_data]. rewrite H1. unfold tab4.
+  apply flat_map_ext_seq. intros i Hi. rewrite H2. apply flat_map_ext_seq. intros j Hj. rewrite H3.
+  apply flat_map_ext_seq. intros k Hk. rewrite H4. cbn [Nat.mul Nat.add].
+  apply (flat_map_singleton (fun l => f (nth (((bidx a1 i * a2 + bidx a2 j) * a3 + bidx a3 k) * a4 + bidx a4 l) la dx)
+                                          (nth (((bidx b1 i * b2 + bidx b2 j) * b3 + bidx b3 k) * b4 + bidx b4 l) lb dy))).
+Qed.
+
+(* (K x A x 1 x B) against (A x B x B): (k, n, a, b) -> f (p k n b) (q n a b) *)
+Lemma broadcast_4_3 : forall {X Y W} (f : X -> Y -> W) dx dy K A B p q,
+  broadcast f dx dy (mkTn [K; A; 1; B] (tab3 K A B p)) (mkTn [A; B; B] (tab3 A B B q)) =
+  Some (mkTn [K; A; B; B] (tab4 K A B B (fun k n a b => f (p k n b) (q n a b)))).
+Proof.
+  intros. unfold broadcast. cbn [rank shp dat length Nat.max pad_shape Nat.sub repeat app bc_shape].
+  rewrite bdim_1_r, !bdim_refl, bdim_1_l.
+  rewrite (bc_data_4 f dx dy K A 1 B 1 A B B K A B B) by (apply bdim_1_r || apply bdim_1_l || apply bdim_refl).
+  do 2 f_equal. apply tab4_ext. intros k n a b Hk Hn Ha Hb. change (bidx 1 k) with 0. change (bidx 1 a) with 0.
+  rewrite (bidx_same K k), (bidx_same A n), (bidx_same B a), (bidx_same B b) by assumption. cbn [Nat.mul Nat.add].
+  replace (((k * A + n) * 1 + 0) * B + b) with ((k * A + n) * B + b) by lia.
+  now rewrite !nth_tab3.
+Qed.
+
+(* equal shapes, three dimensions *)
+Lemma broadcast_same3 : forall {X Y W} (f : X -> Y -> W) dx dy A B C g h,
+  broadcast f dx dy (mkTn [A; B; C] (tab3 A B C g)) (mkTn [A; B; C] (tab3 A B C h)) =
+  Some (mkTn [A; B; C] (tab3 A B C (fun i j k => f (g i j k) (h i j k)))).
+Proof.
+  intros. unfold broadcast. cbn [rank shp dat length Nat.max pad_shape Nat.sub repeat app bc_shape].
+  rewrite !bdim_refl. rewrite (bc_data_3 f dx dy A B C A B C A B C) by apply bdim_refl. do 2 f_equal.
+  apply tab3_ext. intros i j k Hi Hj Hk. rewrite (bidx_same A i), (bidx_same B j), (bidx_same C k) by assumption.
+  now rewrite !nth_tab3.
+Qed.
+
+(* (A x B x 1) against (C): (i, j, k) -> f (g i j) (h k) *)
+Lemma broadcast_col3_row : forall {X Y W} (f : X -> Y -> W) dx dy A B C g h,
+  broadcast f dx dy (mkTn [A; B; 1] (tab2 A B g)) (mkTn [C] (map h (seq 0 C))) =
+  Some (mkTn [A; B; C] (tab3 A B C (fun i j k => f (g i j) (h k)))).
+Proof.
+  intros. unfold broadcast. cbn [rank shp dat length Nat.max pad_shape Nat.sub repeat app bc_shape].
+  rewrite !bdim_1_r, bdim_1_l.
+  rewrite (bc_data_3 f dx dy A B 1 1 1 C A B C) by (apply bdim_1_r || apply bdim_1_l).
+  do 2 f_equal. apply tab3_ext. intros i j k Hi Hj Hk. change (bidx 1 i) with 0. change (bidx 1 j) with 0. change (bidx 1 k) with 0.
+  rewrite (bidx_same A i), (bidx_same B j), (bidx_same C k) by assumption. cbn [Nat.mul Nat.add].
+  replace ((i * B + j) * 1 + 0) with (i * B + j) by lia. now rewrite nth_tab2, nth_map_seq.
+Qed.
+
+(* ---- reductions along the last dimension ---------------------------------------------------------------------- *)
+Lemma fibre_last : forall {X} (d : X) N (l : list X) o, fibre d N 1 l o 0 = map (fun t => nth (o * N + t) l d) (seq 0 N).
+Proof. intros. unfold fibre. apply map_ext. intros t. f_equal. lia. Qed.
+
+Lemma any_dim_4 : forall K A B C (g : nat -> nat -> nat -> nat -> bool),
+  any_dim (mkTn [K; A; B; C] (tab4 K A B C g)) 3 =
+  Some (mkTn [K; A; B] (tab3 K A B (fun k n a => existsb (fun b => b) (map (g k n a) (seq 0 C))))).
+Proof.
+  intros. unfold any_dim. cbn [rank shp dat length]. change (wrap_dim 4 3) with (Some 3).
+  cbv beta iota zeta. cbn [outer extent inner drop_dim firstn skipn nth numel app].
+  do 2 f_equal. rewrite rows_tab3. apply tab3_ext. intros k n a Hk Hn Ha. rewrite fibre_last. f_equal.
+  apply map_ext_seq. intros b Hb. now apply nth_tab4.
+Qed.
+
+Lemma sum_dim_b_3 : forall K A B (g : nat -> nat -> nat -> bool),
+  sum_dim_b (mkTn [K; A; B] (tab3 K A B g)) 2 =
+  Some (mkTn [K; A] (tab2 K A (fun k n => count_row (map (g k n) (seq 0 B))))).
+Proof.
+  intros. unfold sum_dim_b. cbn [rank shp dat length]. change (wrap_dim 3 2) with (Some 2).
+  cbv beta iota zeta. cbn [outer extent inner drop_dim firstn skipn nth numel app].
+  do 2 f_equal. rewrite tab2_col1, (seq_mul (fun r => count_row (fibre false B 1 (tab3 K A B g) r 0)) K A).
+  unfold tab2. apply flat_map_ext_seq. intros k Hk. apply map_ext_seq. intros n Hn. rewrite fibre_last. f_equal.
+  apply map_ext_seq. intros b Hb. now apply nth_tab3.
+Qed.
+
+(* ---- sort along the last dimension of a matrix ----------------------------------------------------------------- *)
+Lemma insert_by_length : forall key i l, length (insert_by key i l) = S (length l).
+Proof.
+  intros key i l. induction l as [|j t IH]; [reflexivity|]. cbn [insert_by].
+  destruct (key i <=? key j)%Z; cbn [length]; [reflexivity|now rewrite IH].
+Qed.
+
+Lemma sort_row_idx_length : forall r, length (sort_row_idx r) = length r.
+Proof.
+  intros r. unfold sort_row_idx. rewrite <- (seq_length (length r) 0) at 2.
+  induction (seq 0 (length r)) as [|i l IH]; [reflexivity|]. cbn [fold_right length]. now rewrite insert_by_length, IH.
+Qed.
+
+Lemma row_of_tab2 : forall {X} A B (g : nat -> nat -> X) n, n < A ->
+  row_of (mkTn [A; B] (tab2 A B g)) B n = map (g n) (seq 0 B).
+Proof.
+  intros X A B g n Hn. unfold row_of. cbn [dat].
+  replace A with (n + S (A - S n)) by lia. rewrite skipn_tab2, tab2_S, firstn_app, length_row.
+  rewrite Nat.sub_diag. cbn [firstn]. rewrite app_nil_r, firstn_all2 by (rewrite length_row; lia).
+  apply map_ext. intros j. f_equal. lia.
+Qed.
+
+Lemma sort_last2_tab : forall N R (g : nat -> nat -> Z),
+  sort_last2 (mkTn [N; R] (tab2 N R g)) 1 =
+  Some (mkTn [N; R] (tab2 N R (fun n j => let r := map (g n) (seq 0 R) in nth (nth j (sort_row_idx r) 0) r 0%Z)),
+        mkTn [N; R] (tab2 N R (fun n j => Z.of_nat (nth j (sort_row_idx (map (g n) (seq 0 R))) 0)))).
+Proof.
+  intros. unfold sort_last2. cbn [shp]. change (wrap_dim 2 1) with (Some 1). cbv iota.
+  f_equal. f_equal; f_equal.
+  - rewrite (flat_map_ext_seq _ (fun n => let r := map (g n) (seq 0 R) in map (fun s => nth s r 0%Z) (sort_row_idx r)) N)
+      by (intros n Hn; now rewrite row_of_tab2 by exact Hn).
+    unfold tab2. apply flat_map_ext_seq. intros n Hn. cbv zeta. set (r := map (g n) (seq 0 R)).
+    rewrite (list_as_map_nth (map (fun s => nth s r 0%Z) (sort_row_idx r)) R 0%Z)
+      by (unfold r; now rewrite map_length, sort_row_idx_length, length_row).
+    apply map_ext_seq. intros j Hj.
+    rewrite (nth_indep _ 0%Z (nth 0 r 0%Z)) by (unfold r; now rewrite map_length, sort_row_idx_length, length_row).
+    now rewrite (map_nth (fun s => nth s r 0%Z)).
+  - rewrite (flat_map_ext_seq _ (fun n => map Z.of_nat (sort_row_idx (map (g n) (seq 0 R)))) N)
+      by (intros n Hn; now rewrite row_of_tab2 by exact Hn).
+    unfold tab2. apply flat_map_ext_seq. intros n Hn. set (r := map (g n) (seq 0 R)).
+    rewrite (list_as_map_nth (map Z.of_nat (sort_row_idx r)) R 0%Z)
+      by (unfold r; now rewrite map_length, sort_row_idx_length, length_row).
+    apply map_ext_seq. intros j Hj. change 0%Z with (Z.of_nat 0). now rewrite map_nth.
+Qed.
+
+(* ---- expand of a matrix to three sizes --------------------------------------------------------------------------- *)
+Lemma expand_size_same : forall a, expand_size a (Z.of_nat a) = Some a.
+Proof.
+  intros. unfold expand_size. replace (Z.of_nat a =? -1)%Z with false by lia. replace (Z.of_nat a <? 0)%Z with false by lia.
+  now rewrite Nat2Z.id, Nat.eqb_refl.
+Qed.
+
+Lemma expand_lead2_as : forall {X} (d : X) K A B (g : nat -> nat -> X),
+  expand_lead2 d (mkTn [A; B] (tab2 A B g)) (Z.of_nat K) (Z.of_nat A) (Z.of_nat B) =
+  Some (mkTn [K; A; B] (tab3 K A B (fun _ i j => g i j))).
+Proof.
+  intros. unfold expand_lead2. cbn [shp dat]. rewrite !expand_size_same. replace (Z.of_nat K <? 0)%Z with false by lia.
+  rewrite Nat2Z.id. do 2 f_equal. apply tab3_ext. intros k i j Hk Hi Hj.
+  rewrite (bidx_same A i), (bidx_same B j) by assumption. now apply nth_tab2.
+Qed.
+
+Lemma expand_lead2_keep : forall {X} (d : X) K A B (g : nat -> nat -> X),
+  expand_lead2 d (mkTn [A; B] (tab2 A B g)) (Z.of_nat K) (-1) (-1) =
+  Some (mkTn [K; A; B] (tab3 K A B (fun _ i j => g i j))).
+Proof.
+  intros. unfold expand_lead2. cbn [shp dat]. unfold expand_size. change (-1 =? -1)%Z with true. cbv iota.
+  replace (Z.of_nat K <? 0)%Z with false by lia.
+  rewrite Nat2Z.id. do 2 f_equal. apply tab3_ext. intros k i j Hk Hi Hj.
+  rewrite (bidx_same A i), (bidx_same B j) by assumption. now apply nth_tab2.
+Qed.
+
+(* ---- gather along the last dimension of 3-D tables ------------------------------------------------------------------ *)
+Lemma gather_last3_tab : forall {X} (d : X) A B C (f : nat -> nat -> nat -> X) (s : nat -> nat -> nat -> nat),
+  (forall i j k, i < A -> j < B -> k < C -> s i j k < C) ->
+  gather_last3 d (mkTn [A; B; C] (tab3 A B C f)) (mkTn [A; B; C] (tab3 A B C (fun i j k => Z.of_nat (s i j k)))) =
+  Some (mkTn [A; B; C] (tab3 A B C (fun i j k => f i j (s i j k)))).
+Proof.
+  intros X d A B C f s Hs. unfold gather_last3. cbn [shp dat]. rewrite !Nat.eqb_refl. cbn [andb].
+  rewrite forallb_tab3 by (intros i j k Hi Hj Hk; specialize (Hs i j k Hi Hj Hk); lia).
+  do 2 f_equal. apply tab3_ext. intros i j k Hi Hj Hk.
+  rewrite (nth_tab3 A B C (fun i j k => Z.of_nat (s i j k)) i j k 0%Z Hi Hj Hk), Nat2Z.id.
+  apply nth_tab3; auto.
+Qed.
+
+(* ---- slices of the last dimension ---------------------------------------------------------------------------------- *)
+Lemma slice_last3_init : forall {X} (d : X) A B C (f : nat -> nat -> nat -> X),
+  slice_last d (mkTn [A; B; S C] (tab3 A B (S C) f)) None (Some (-1)%Z) = Some (mkTn [A; B; C] (tab3 A B C f)).
+Proof.
+  intros. unfold slice_last. cbn [shp dat rev app numel slice_bound].
+  change (-1 <? 0)%Z with true. cbv iota. replace (Nat.min (S C) (Z.to_nat (-1 + Z.of_nat (S C)))) with C by lia.
+  rewrite Nat.sub_0_r. do 2 f_equal. rewrite tab2_rows3. apply tab3_ext. intros a b c Ha Hb Hc.
+  rewrite Nat.add_0_r. apply nth_tab3; lia.
+Qed.
+
+Lemma slice_last3_last : forall {X} (d : X) A B C (f : nat -> nat -> nat -> X),
+  slice_last d (mkTn [A; B; S C] (tab3 A B (S C) f)) (Some (-1)%Z) None = Some (mkTn [A; B; 1] (tab3 A B 1 (fun a b _ => f a b C))).
+Proof.
+  intros. unfold slice_last. cbn [shp dat rev app numel slice_bound].
+  change (-1 <? 0)%Z with true. cbv iota. replace (Nat.min (S C) (Z.to_nat (-1 + Z.of_nat (S C)))) with C by lia.
+  replace (S C - C) with 1 by lia. do 2 f_equal. rewrite tab2_rows3. apply tab3_ext. intros a b c Ha Hb Hc.
+  replace c with 0 by lia. rewrite Nat.add_0_r. apply nth_tab3; lia.
+Qed.
+
+Lemma slice_last2_init : forall {X} (d : X) A B (f : nat -> nat -> X),
+  slice_last d (mkTn [A; S B] (tab2 A (S B) f)) None (Some (-1)%Z) = Some (mkTn [A; B] (tab2 A B f)).
+Proof.
+  intros. unfold slice_last. cbn [shp dat rev app numel slice_bound].
+  change (-1 <? 0)%Z with true. cbv iota. replace (Nat.min (S B) (Z.to_nat (-1 + Z.of_nat (S B)))) with B by lia.
+  rewrite Nat.sub_0_r. do 2 f_equal. apply tab2_ext. intros a b Ha Hb. rewrite Nat.add_0_r. apply nth_tab2; lia.
+Qed.
+
+Lemma slice_last2_tail : forall {X} (d : X) A B (f : nat -> nat -> X),
+  slice_last d (mkTn [A; S B] (tab2 A (S B) f)) (Some 1%Z) None = Some (mkTn [A; B] (tab2 A B (fun i j => f i (S j)))).
+Proof.
+  intros. unfold slice_last. cbn [shp dat rev app numel slice_bound].
+  change (1 <? 0)%Z with false. cbv iota. change (Z.to_nat 1) with 1. replace (Nat.min (S B) 1) with 1 by lia.
+  replace (S B - 1) with B by lia. do 2 f_equal. apply tab2_ext. intros a b Ha Hb.
+  replace (a * S B + 1 + b) with (a * S B + S b) by lia. apply nth_tab2; lia.
+Qed.
+
+(* ---- torch.cat along the last dimension of 3-D tables ------------------------------------------------------------- *)
+Lemma cat_last3_tab : forall {X} (d : X) A B C (g h : nat -> nat -> nat -> X),
+  cat_last d (mkTn [A; B; C] (tab3 A B C g)) (mkTn [A; B; 1] (tab3 A B 1 h)) =
+  Some (mkTn [A; B; S C] (tab3 A B (S C) (fun a b j => if j <? C then g a b j else h a b 0))).
+Proof.
+  intros. unfold cat_last. cbn [shp dat rev app numel]. rewrite nats_eqb_refl.
+  replace (C + 1) with (S C) by lia.
+  do 2 f_equal. rewrite tab2_rows3. apply tab3_ext. intros a b j Ha Hb Hj.
+  destruct (Nat.ltb_spec j C).
+  - apply nth_tab3; assumption.
+  - replace (j - C) with 0 by lia. apply nth_tab3; lia.
+Qed.
+
+(* ---- the maximum of all elements ------------------------------------------------------------------------------------ *)
+Lemma fold_left_max_ge : forall l a, (a <= fold_left Z.max l a)%Z.
+Proof. induction l as [|x l IH]; intros a; cbn [fold_left]; [lia|]. specialize (IH (Z.max a x)). lia. Qed.
+
+Lemma fold_left_max_in : forall l a x, List.In x l -> (x <= fold_left Z.max l a)%Z.
+Proof.
+  induction l as [|y l IH]; intros a x Hin; [destruct Hin|]. cbn [fold_left]. destruct Hin as [->|Hin].
+  - pose proof (fold_left_max_ge l (Z.max a x)). lia.
+  - now apply IH.
+Qed.
+
+Definition zmax_list (l : list Z) : Z := match l with [] => 0%Z | a :: r => fold_left Z.max r a end.
+
+Lemma max_all_some : forall sh l, l <> [] -> max_all (mkTn sh l) = Some (zmax_list l).
+Proof. intros sh [|a r] H; [contradiction|reflexivity]. Qed.
+
+Lemma zmax_list_ge : forall l x, List.In x l -> (x <= zmax_list l)%Z.
+Proof.
+  intros [|a r] x Hin; [destruct Hin|]. cbn [zmax_list]. destruct Hin as [->|Hin].
+  - apply fold_left_max_ge.
+  - now apply fold_left_max_in.
+Qed.
+
+Lemma zmax_list_in : forall l, l <> [] -> List.In (zmax_list l) l.
+Proof.
+  intros [|a r] H; [contradiction|]. cbn [zmax_list]. clear H. revert a. induction r as [|x r IH]; intros a; cbn [fold_left].
+  - now left.
+  - destruct (IH (Z.max a x)) as [E|Hin].
+    + rewrite <- E. destruct (Z.max_spec a x) as [[_ ->]|[_ ->]]; [right; now left|now left].
+    + right. now right.
+Qed.
+
+Lemma insert_by_in : forall key i l x, List.In x (insert_by key i l) -> x = i \/ List.In x l.
+Proof.
+  intros key i l x. induction l as [|j t IH]; cbn [insert_by]; intros H.
+  - destruct H as [<-|[]]. now left.
+  - destruct (key i <=? key j)%Z.
+    + destruct H as [<-|H]; [now left|now right].
+    + destruct H as [<-|H]; [right; now left|]. destruct (IH H) as [->|H']; [now left|right; now right].
+Qed.
+
+Lemma sort_row_idx_in : forall r x, List.In x (sort_row_idx r) -> x < length r.
+Proof.
+  intros r x. unfold sort_row_idx.
+  assert (G : forall l, List.In x (fold_right (insert_by (fun i => nth i r 0%Z)) [] l) -> List.In x l).
+  { induction l as [|i l IH]; cbn [fold_right]; intros H; [exact H|].
+    apply insert_by_in in H. destruct H as [->|H]; [now left|right; now apply IH]. }
+  intros H. apply G in H. apply in_seq in H. lia.
+Qed.
+
+Lemma sort_row_idx_nth_lt : forall r j, j < length r -> nth j (sort_row_idx r) 0 < length r.
+Proof. intros r j Hj. apply sort_row_idx_in, nth_In. now rewrite sort_row_idx_length. Qed.
+
+Lemma tab2_nonempty : forall {X} K N (f : nat -> nat -> X), K <> 0 -> N <> 0 -> tab2 K N f <> [].
+Proof. intros X K N f HK HN E. apply (f_equal (@length X)) in E. rewrite tab2_length in E. cbn [length] in E. nia. Qed.
+
+Lemma zmax_tab2_nonneg : forall K N (f : nat -> nat -> Z), K <> 0 -> N <> 0 -> (forall k n, (0 <= f k n)%Z) ->
+  (0 <= zmax_list (tab2 K N f))%Z.
+Proof.
+  intros K N f HK HN Hf. specialize (Hf 0 0).
+  assert (Hin : List.In (f 0 0) (tab2 K N f)).
+  { rewrite <- (nth_tab2 K N f 0 0 0%Z) by lia. apply nth_In. rewrite tab2_length. nia. }
+  pose proof (zmax_list_ge _ _ Hin). lia.
+Qed.
+
+Lemma count_row_nonneg : forall l, (0 <= count_row l)%Z.
+Proof. intros. unfold count_row. lia. Qed.
